@@ -91,12 +91,13 @@ class RefJar:
         out = []
         for d, cookies in self.jar.items():
             if host.endswith(d) or host == d[1:]:
-                out += [f"{k}={v}" for k, v in cookies.items()]
-        return "; ".join(sorted(out))
+                out += list(cookies.items())
+        # sorted by cookie *name* (then value): 'a' before 'a1', whatever the values are
+        return "; ".join(f"{k}={v}" for k, v in sorted(out))
 
 
 SETS = ["a=1; Domain=example.com", "b=2; Domain=EXAMPLE.com", "a=3; Domain=.example.com", "c=4", "a=5; Domain=sub.example.com",
-        "d=6; Domain=other.org", "e=7; Domain=.Example.COM; Path=/"]
+        "d=6; Domain=other.org", "e=7; Domain=.Example.COM; Path=/", "a1=8; Domain=example.com"]
 HOSTS = ["example.com", "EXAMPLE.COM", "www.example.com", "sub.example.com", "evilexample.com", "example.com.evil", "other.org", "org", ""]
 
 
@@ -109,7 +110,7 @@ def r1(ctx):
     if ctx.tier == "thorough":
         hist += list(itertools.product(SETS, SETS, SETS))
     if ctx.tier == "quick":
-        hist = [h for h in hist if len(h) == 1 or (h[0] != h[1] and SETS.index(h[0]) < 5 and SETS.index(h[1]) < 7)]
+        hist = [h for h in hist if len(h) == 1 or (h[0] != h[1] and SETS.index(h[0]) < 5 and SETS.index(h[1]) < 8)]
     fails = {}
     n = 0
     for h in hist:
